@@ -226,6 +226,11 @@ def replay_spellings(a):
         ("rule r {\n  Resources.q.Properties.e == 'it\\'s'\n}\n", "rule r {\n  Resources.q.Properties.e == \"it's\"\n}\n"),
         ("rule r {\n  Resources.q.Properties.d == \"say \\\"hi\\\"\"\n}\n", "rule r {\n  Resources.q.Properties.d == 'say \"hi\"'\n}\n"),
         ("rule r {\n  Resources.q.Properties.l[1] == 2\n}\n", "rule r {\n  Resources.q.Properties.l.1 == 2\n}\n"),
+        ("rule r {\n  Resources.q.Properties.l[4294967296] == 1\n}\n", "rule r {\n  Resources.q.Properties.l.4294967296 == 1\n}\n"),
+        ("rule r {\n  Resources.q.Properties.l[4294967297] == 2\n}\n", "rule r {\n  Resources.q.Properties.l.4294967297 == 2\n}\n"),
+        ("rule r {\n  Resources.q.Properties.l[2147483648] == 2\n}\n", "rule r {\n  Resources.q.Properties.l.2147483648 == 2\n}\n"),
+        ("rule r {\n  Resources.q.Properties.l[8589934593] exists\n}\n", "rule r {\n  Resources.q.Properties.l.8589934593 exists\n}\n"),
+        ("rule r {\n  Resources.q.Properties.l[0] == 1\n}\n", "rule r {\n  Resources.q.Properties.l.0 == 1\n}\n"),
         ("rule r {\n  a == 1\n}\n", "rule r {\n  this.a == 1\n}\n"),
         ("rule r {\n  Resources.*[ Type == 'AWS::S3::Bucket' ].Properties.x == 2\n}\n", "rule r {\n  Resources.*[ this.Type == 'AWS::S3::Bucket' ].Properties.x == 2\n}\n"),
         ("rule r {\n  Resources.*[ Properties.x == 1 ] {\n    Properties.s == 'a'\n  }\n}\n", "rule r {\n  Resources.*[ this.Properties.x == 1 ] {\n    this.Properties.s == 'a'\n  }\n}\n"),
@@ -260,6 +265,57 @@ def replay_spellings(a):
             "note": ("a spelling did not parse: " + str(notran[:2])) if notran else None}
 
 
+def index_spellings_agree(a):
+    """`.n` and `[n]`: both parsers convert the integer literal through a closure (Value -> QueryPart). The two closures are executed
+    on the SAME symbolic i64 literal (one solver query over both, the second executor's symbols renamed apart): they must build the same
+    QueryPart::Index, for every literal - also for literals that do not fit the index type"""
+    V = enum_variants(a.src, "rules/values.rs", "Value")
+    runs = []
+    for fn in ("dotted_property", "array_index"):
+        holder = {}
+
+        def prep(ex):
+            x = ex.opq()
+            ex.proj[("disc", x[1])] = str(V.index("Int"))
+            lit = ex.fresh_int("i64", "lit")
+            ex.proj[(x[1], "as Int.0")] = lit
+            holder.update(x=x, lit=lit)
+            return {"_2": x}
+        ex = a.exec(r"(?:(?:rules::)?parser::)?" + fn + r"::\{closure#0\}", {}, prep=prep, unroll=1, max_paths=200, deepen=False)
+        a.fns.append(f"rules::parser::{fn}::{{closure#0}}")
+        outs = []
+        for p in ex.paths:
+            r = p.ret
+            if p.outcome == "return" and r and r[0] == "variant" and r[2] == "Index" and r[3] and r[3][0][0] == "int":
+                outs.append((pc_term(p.pc), r[3][0][1]))
+            else:
+                outs.append((pc_term(p.pc), None))
+        runs.append((ex, holder["lit"][1], outs))
+    ren = lambda t: re.sub(r"\|([^|!]+)!(\d+)\|", r"|B.\1!\2|", t)
+    (ex1, lit1, outs1), (ex2, lit2, outs2) = runs
+    decls = list(ex1.decls) + [ren(d) for d in ex2.decls]
+    side = list(ex1.side) + [ren(x) for x in ex2.side] + [f"(= {lit1} {ren(lit2)})"]
+    bad = []
+    for pc1, o1 in outs1:
+        for pc2, o2 in outs2:
+            if o1 is None or o2 is None:
+                bad.append(f"(and {pc1} {ren(pc2)})")
+            else:
+                bad.append(f"(and {pc1} {ren(pc2)} (not (= {o1} {ren(o2)})))")
+    st = a.ob.check("parser/index-spellings-agree", decls, side, "(or false " + " ".join(bad) + ")",
+                    "`.n` and `[n]` (dotted_property / array_index conversion closures run on one shared symbolic i64 literal, integer casts "
+                    "with their wrap-around semantics): both build QueryPart::Index of the SAME index value for every literal")
+    item = a.ob.items[-1]
+    item["paths"], item["cut_by_unroll_bound"], item["unroll"] = len(ex1.paths) + len(ex2.paths), ex1.cut + ex2.cut, 1
+    if st == "proved":
+        a.ob.check("parser/index-spellings-agree/witness", decls, side, "(or false " + " ".join(f"(and {p1} {ren(p2)})" for p1, _ in outs1 for p2, _ in outs2) + ")",
+                   "vacuity witness: both closures have a feasible returning path on a shared literal", expect="refuted")
+    if st == "refuted":
+        item["replay"] = replay_spellings(a)
+        item["reproduced"] = item["replay"].get("reproduced", False)
+        a.candidates.append(item)
+
+
 from mirblocks import type_block, guard_block
 
 
@@ -270,4 +326,4 @@ def this_and_index_forms(a):
     mirquery.q_dispatch(a)
 
 
-SITES = {"C14": [keyword_tables, type_block_desugar, parser_clause_wiring, quoting_wiring, type_block, guard_block, this_and_index_forms]}
+SITES = {"C14": [keyword_tables, type_block_desugar, parser_clause_wiring, quoting_wiring, type_block, guard_block, this_and_index_forms, index_spellings_agree]}
